@@ -216,13 +216,17 @@ class Harness:
         t0 = time.time()
         res = D.discharge(jobs, timeout_ms=timeout_ms)
         wall = time.time() - t0
-        byname = {r['name']: r for r in res}
+        # results come back in job order; two obligations of one path may carry the same name (the same safety condition met
+        # twice): they are matched by position, never by name
+        assert len(res) == len(jobs)
+        it = iter(res)
         out = []
         for n, s, m in self.obls:
             if s is None:
                 out.append({'name': n, 'verdict': 'unsat', 'backend': 'poly-normal-form' if m.get('kind') == 'poly' else ('structural' if m.get('kind') == 'struct' else 'z3-simplifier'), 'time': 0.0, 'model': None, **m})
             else:
-                r = dict(byname[n])
+                r = dict(next(it))
+                assert r['name'] == n
                 r.update(m)
                 if m.get('kind') == 'poly':
                     r['backend'] = 'poly-normal-form'       # decided by exact normalisation; the solver only saw the constant
